@@ -273,6 +273,8 @@ def step(toks, ann):
                 data = memoryview(data)
             elif ann.get('buf') == 'mv-shared':
                 data = memoryview(shared_buf(data))
+            elif ann.get('buf') == 'mv-strided':
+                data = memoryview(b''.join(bytes([x, 0xa5]) for x in data))[::2]
             return 'ok ' + hx(huff_coder().encode(data))
         except Exception as e:
             return canon(e)
@@ -292,6 +294,10 @@ def step(toks, ann):
                 data = array.array('B', data)
             elif ann.get('buf') == 'mv-slice':
                 data = memoryview(b'\x00' + data + b'\xff')[1:-1]
+            elif ann.get('buf') == 'mv-strided':          # every other octet of a larger buffer (format 'B', not contiguous)
+                data = memoryview(b''.join(bytes([x, 0xa5]) for x in data))[::2]
+            elif ann.get('buf') == 'mv-reversed':
+                data = memoryview(bytes(reversed(data)))[::-1]
             return 'ok ' + hx(decode_huffman(data))
         except Exception as e:
             return canon(e)
